@@ -395,6 +395,8 @@ type distrRunner struct {
 	// parameter updates (dom_distribution_params.go)
 	mintDenom                 string // exomint MintDenom in force
 	paramUpdates, switchLower int
+	// batches on a dropped branch (dom_distribution_discard.go) whose branch held other mint params / another reward
+	discardedMint, discardedReward int
 	haltSigAs                 string // directed probes: the sig a halt of this history is reported under
 	// F-17c regression (dom_distribution_params.go): updates with a community tax outside [0,1] that were ACCEPTED;
 	// with deferTaxAccepted the violation is reported by the scenario after the block that follows (one replay
@@ -636,6 +638,7 @@ func domDistribution(env *Env) error {
 	maxBlocks := env.Int("blocks", 40)
 	rng := NewRNG(env.Report.Seed)
 	prng := NewRNG(env.Report.Seed ^ 0x70617261) // parameter updates: a stream of their own
+	brng := NewRNG(env.Report.Seed ^ 0x62617463) // batches on dropped branches: a stream of their own
 	env.Report.Domain = "distribution"
 
 	// ---- directed regression histories (on the real code): F-17a minimal, F-17b two-AVS staker
@@ -645,6 +648,7 @@ func domDistribution(env *Env) error {
 	distrScenarioEmptyStakers(env)
 	distrScenarioSlashedToZero(env)
 	distrScenarioParams(env) // accepted parameter updates in the middle of a history (dom_distribution_params.go)
+	distrScenarioDiscarded(env) // parameter updates on a branch that is dropped (dom_distribution_discard.go)
 
 	ids := []string{epochstypes.DayEpochID, epochstypes.HourEpochID, epochstypes.MinuteEpochID, epochstypes.WeekEpochID} // store (alphabetical) order
 	powerChoices := []int64{100, 101, 150, 1000, 4999}
@@ -652,6 +656,9 @@ func domDistribution(env *Env) error {
 	for hi := 0; hi < n; hi++ {
 		seed := env.Report.Seed*1000 + uint64(hi)
 		cfg := DefaultCfg(seed)
+		if brng.Chance(1, 3) { // a chain id that is not a mainnet id: simulations of parameter updates can be accepted
+			cfg.ChainID = utils.TestnetChainID + "-1"
+		}
 		cfg.NOperators = 1 + rng.Intn(4)
 		cfg.Powers = nil
 		for i := 0; i < cfg.NOperators; i++ {
@@ -784,6 +791,7 @@ func domDistribution(env *Env) error {
 			}
 			// governance: MsgUpdateParams of x/exomint / x/feedistribution (identifier, reward, denom, tax)
 			r.randomParams(prng)
+			r.randomBatch(brng) // … and batches of them on a branch that is dropped (dom_distribution_discard.go)
 			// block time step
 			var d time.Duration
 			infos := c.App.EpochsKeeper.AllEpochInfos(c.Ctx)
